@@ -47,7 +47,7 @@ fn main() {
 			for pos in 1..base.len() {
 				let mut faults = vec!["ss stop".to_string()];
 				for c in 0..nconns {
-					faults.push(format!("ss connclose {c} {}", if (pos + c) % 2 == 0 { "abrupt" } else { "graceful" }));
+					faults.push(format!("ss connclose {c} {}", ["abrupt", "graceful", "dropfut"][(pos + c) % 3]));
 				}
 				for fault in faults {
 					caseno += 1;
